@@ -36,6 +36,8 @@ trait Fb {
     fn clear_raw(&mut self, v: u32);
     /// size of as_image() and the calls of drawing it at the origin on the draining target
     fn image_obs(&self) -> (Size, Vec<Value>);
+    /// the calls of drawing as_image() at the origin on the draining target seen through `.clipped(clip)`
+    fn image_obs_clipped(&self, clip: &Rectangle) -> Vec<Value>;
     /// draws the described drawable on the framebuffer; returns the pixel stream the same
     /// drawable emits on a draw_iter-only recording target with the same bounding box
     fn draw_drawable(&mut self, d: &Value) -> Vec<(i32, i32, u32)>;
@@ -100,6 +102,12 @@ macro_rules! fb_impl {
                 let mut t = Drain::<$C>::new();
                 Image::new(&img, Point::zero()).draw(&mut t).unwrap();
                 (img.size(), t.calls)
+            }
+            fn image_obs_clipped(&self, clip: &Rectangle) -> Vec<Value> {
+                let img = self.as_image();
+                let mut t = Drain::<$C>::new();
+                Image::new(&img, Point::zero()).draw(&mut t.clipped(clip)).unwrap();
+                t.calls
             }
             fn draw_drawable(&mut self, d: &Value) -> Vec<(i32, i32, u32)> {
                 let mut r = LogDefault::<$C>::new(self.bounding_box());
@@ -202,7 +210,11 @@ fn observe(fb: &dyn Fb, w: i32, h: i32) -> Value {
         }
     }
     let (isize, icalls) = fb.image_obs();
-    json!({"data": fb.bytes(), "probes": probes, "isize": [isize.width, isize.height], "icalls": icalls})
+    // as_image() through a clipped target: the crop seeks in the colour iterator (first column and first rows cut off)
+    let clip = Rectangle::new(Point::new(1, if h >= 3 { 2 } else { 1 }), Size::new(w.max(0) as u32, h.max(0) as u32));
+    let iccalls = fb.image_obs_clipped(&clip);
+    json!({"data": fb.bytes(), "probes": probes, "isize": [isize.width, isize.height], "icalls": icalls,
+           "iclip": rect_json(&clip), "iccalls": iccalls})
 }
 
 fn run_case(rec: &mut Rec, d: &Value) {
@@ -215,7 +227,8 @@ fn run_case(rec: &mut Rec, d: &Value) {
     match first {
         Ok(o) => rec.ev(
             "fb",
-            json!({"bpp": bpp, "ord": ord, "w": w, "h": h, "n": n, "data": o["data"], "probes": o["probes"], "isize": o["isize"], "icalls": o["icalls"]}),
+            json!({"bpp": bpp, "ord": ord, "w": w, "h": h, "n": n, "data": o["data"], "probes": o["probes"], "isize": o["isize"], "icalls": o["icalls"],
+                   "iclip": o["iclip"], "iccalls": o["iccalls"]}),
         ),
         Err(p) => {
             rec.ev("panic", json!({"msg": p.msg, "loc": p.loc}));
@@ -262,7 +275,8 @@ fn run_case(rec: &mut Rec, d: &Value) {
                     "op",
                     json!({"i": k + 1,
                            "op": {"k": kind, "p": [p.x, p.y], "c": c as i32, "px": pxj, "area": rect_json(&area)},
-                           "data": o["data"], "probes": o["probes"], "isize": o["isize"], "icalls": o["icalls"]}),
+                           "data": o["data"], "probes": o["probes"], "isize": o["isize"], "icalls": o["icalls"],
+                   "iclip": o["iclip"], "iccalls": o["iccalls"]}),
                 );
                 rec.nontrivial();
             }
@@ -316,11 +330,19 @@ fn rnd_op(rng: &mut Rng, bpp: i64, w: i32, h: i32, drawables: bool) -> Value {
         }
         6 => json!({"k":"fs","area":rnd_area(rng, w, h),"c":rnd_val(rng, bpp)}),
         7 => {
-            let a = rnd_area(rng, w, h);
+            // half of the streams go to areas completely inside (an override can take a different path there)
+            let a = if rng.bool() && w > 0 && h > 0 {
+                let (x, y) = (rng.i32(0, w - 1), rng.i32(0, h - 1));
+                json!([x, y, rng.i32(1, w - x), rng.i32(1, h - y)])
+            } else {
+                rnd_area(rng, w, h)
+            };
             let n = (i(&a[2]) * i(&a[3])) as usize;
-            let len = match rng.u32r(0, 3) {
+            let len = match rng.u32r(0, 6) {
                 0 => n / 2,
                 1 => n + 3,
+                2 => n.saturating_sub(1),
+                3 => rng.usize(0, n),
                 _ => n,
             };
             let cs: Vec<i32> = (0..len).map(|_| rnd_val(rng, bpp)).collect();
